@@ -303,6 +303,21 @@ def path_write_scenarios():
             for w2 in writes[i + 1:]:
                 if w[0][:len(w2[0])] != w2[0] and w2[0][:len(w[0])] != w[0]:
                     out.append((src, D0, [w, w2]))
+    # object lists: a field added by a path write takes a position of its own (index-like names sort first), so later positions belong to other fields
+    OD = {"o": {"1": {"k": "x", "p": 1}, "b": {"k": "y", "p": 2}}, "q": {"5": "five", "z": "zed", "10": "ten"}}
+    owrites = [(("o", "0"), {"k": "n", "p": 0}), (("o", "2"), {"k": "m", "p": 3}), (("o", "a"), {"k": "w", "p": 4}), (("o", "1", "p"), 9), (("q", "7"), "seven"),
+               (("q", "0"), "zero"), (("q", "zz"), "last"), (("q", "5"), "FIVE")]
+    for key in ("", ' wx:key="k"', ' wx:key="*this"'):
+        for lst, body in (("o", "{{item.p}}"), ("o", "{{index}}:{{item.k}}"), ("o", "<v title=\"{{item.p}}\"/>"), ("q", "{{item}}"), ("q", "{{index}}"),
+                          ("q", "<block wx:if=\"{{item}}\">{{item}}</block>")):
+            src = '<view wx:for="{{%s}}"%s>%s</view>' % (lst, key, body)
+            for i, w in enumerate(owrites):
+                if w[0][0] != lst:
+                    continue
+                out.append((src, OD, [w]))
+                for w2 in owrites[i + 1:]:
+                    if w2[0][0] == lst and w[0][:len(w2[0])] != w2[0] and w2[0][:len(w[0])] != w[0]:
+                        out.append((src, OD, [w, w2]))
     return out
 
 
